@@ -985,7 +985,7 @@ Section C07.
         - intros u N _ E. inversion E. congruence.
         - intros tk' Hg' _. destruct U2 as (A2 & _). rewrite A2 in Hg'. inversion Hg'; subst tk'.
           split; [exact Hnd|]. cbn. intros k' E o. inversion E; subst. apply Hwy. }
-      destruct (tk_deps tk ++ futs (extract y')) as [|d0 dl];
+      destruct (futs (extract y')) as [|d0 dl];
         (split; [apply VP_plain; [exact I|exact HV2|exact HH2]|apply lifo_same; exact Hl2]).
     - (* Enter *)
       assert (Hwe : ~ In (cid_of c) (map cid_of (tk_ctxs tk)) /\ wn (tk_ctxs tk ++ [c]) k) by (inversion Hwn; subst; auto).
@@ -1488,7 +1488,7 @@ Section Awaiting.
       { apply Hgen.
         - transitivity (tasks s1); [apply tasks_of_regs; apply regs_set_task|apply tasks_of_regs; exact Hri].
         - intros h N Hh. destruct U2 as (_ & B & _). rewrite B by exact N. apply Old. exact Hh. }
-      destruct (tk_deps tk ++ futs (extract y')); exact A2.
+      destruct (futs (extract y')); exact A2.
     - unfold enter_ctx, get_task. rewrite Hg.
       set (tk1 := tk_with_ctxs tk (tk_ctxs tk ++ [c]) (tk_cact tk)).
       pose proof (set_task_upd s t None tk tk1 Hg) as U1.
